@@ -64,6 +64,10 @@ CLAIMED["C15"] = dict(engine="E1", technique="symbolic execution of modulator ->
     text="Every LLR-mode consumer maps (1-2b) x magnitude (magnitudes 1e-3..1e3 on a grid) back to b for all bit patterns; every catalogue soft demodulator followed by an LLR consumer reproduces all transmitted bit sequences of 2 symbols; LLRThresholder's soft output equals sigmoid(-LLR) and decreases with the LLR.",
     note="Dead-zone / data-relative thresholders are exercised with |LLR| >= 1 (adaptive: both bit values present). Soft-input decoders as consumers are covered by the clean-LLR clauses of C10/C11. Known findings: FixedThresholder(LLR) and MinDistanceThresholder(LLR) polarity (pinned by existing tests).",
     ref="DESIGN.md §4 C15")
+CLAIMED["C06"] = dict(engine="E1", technique="symbolic execution of the real demodulators on a received point y = a + jb with symbolic reals (squared distances are polynomials, argmin / min / where become ite terms) and a symbolic noise variance; z3 decides nearest-point optimality against the published tables and the max-log LLR identity",
+    text="Memoryless schemes (BPSK, QPSK, PSK, QAM, PAM, OQPSK; orders <= 16 quick / 64 thorough-stretch): for every received point in [-4,4]^2 the hard decision is the label of a point within margin of the minimum distance; for every y and every noise variance in [1e-3,1e3] each LLR times the noise variance equals a fixed positive kappa times (min squared distance to a 1-labelled point - min squared distance to a 0-labelled point), which implies the sign/hard-decision agreement and the 1/noise_var scaling.",
+    note="Floats of symbolic quantities are reals (margin 1e-4 d_min^2, tolerance 1e-3 kappa); kappa is read from one concrete evaluation, then proved for all inputs. DPSK / pi/4-QPSK on a continuous received point are outside the claim (atan2, alternating tables).",
+    ref="DESIGN.md §4 C06, §6")
 NOT_YET = {}
 
 PENDING_REASON = "check not built yet in this round (planned: see DESIGN.md §8); not claimed until its check exists"
